@@ -19,6 +19,7 @@ UNITS = {
     'ubjson': dict(module='units.ubjson', rlimit=150, timeout=600),
     'hash': dict(module='units.hash', rlimit=50, timeout=300),
     'rollback': dict(module='units.rollback', rlimit=50, timeout=300),
+    'arrow': dict(module='units.arrow', rlimit=150, timeout=600),
 }
 
 PROPS = {
@@ -90,6 +91,10 @@ PROPS = {
     ),
     'C11': dict(
         units=[('hash', r'(HashingReader|format_hash|C11|::new|into_digest|seek|::read$)'), ('reader', r'(C11|^read$)')],
+        kani=[],
+    ),
+    'C14': dict(
+        units=[('arrow', r'(data_type|into_struct_array|from_struct_array|port_data_type|item_data_type|lemma_arrow|C14|arrow2\.)')],
         kani=[],
     ),
     'C13': dict(
